@@ -148,18 +148,28 @@ class _RealPool(cf.Executor):
         self._max_workers = real._max_workers
 
     def submit(self, fn, *a, **k):
-        i = self.sched.submitted
-        self.sched.submitted += 1
-        errors = self.sched.errors
+        sched = self.sched
+        i = sched.submitted
+        sched.submitted += 1
+        errors = sched.errors
+        gate = sched.gate
 
         def wrapped(*a, **k):
+            if gate is not None:
+                gate.wait(timeout=30)
             try:
                 return fn(*a, **k)
             except BaseException as e:  # noqa
                 errors.append((i, type(e).__name__, str(e)[:120]))
                 raise
 
-        return self.real.submit(wrapped, *a, **k)
+        f = self.real.submit(wrapped, *a, **k)
+        if gate is not None and sched.submitted >= sched.gate_after:
+            gate.set()
+        return f
+
+    def __getattr__(self, name):  # stay transparent for anything else quimb may look at
+        return getattr(self.real, name)
 
 
 class _CFShim:
@@ -185,11 +195,19 @@ class Sched:
 
     MODES = ("perm", "conc", "real")
 
-    def __init__(self, mode="perm", oseed=0, workers=None):
+    def __init__(self, mode="perm", oseed=0, workers=None, gate_after=None):
         assert mode in self.MODES
         self.mode = mode
         self.oseed = int(oseed)
         self.workers = workers  # emulate QUIMB_NUM_THREAD_WORKERS=workers while installed
+        # mode "real" only: no task starts before `gate_after` tasks have been submitted (the schedule in which
+        # the submitting thread is faster than the workers, made deterministic)
+        self.gate_after = gate_after
+        self.gate = None
+        if gate_after is not None:
+            self.gate = threading.Event()
+            if gate_after <= 0:
+                self.gate.set()
         self.submitted = 0
         self.errors = []
         self.batches = []
@@ -218,6 +236,8 @@ class Sched:
         if self.workers is not None:
             self._set(core, "_NUM_THREAD_WORKERS", int(self.workers))
             self._set(qrand, "_NUM_THREAD_WORKERS", int(self.workers))
+            # par_reduce(fn, seq, num_threads=_NUM_THREAD_WORKERS): the default was bound at import
+            self._set(core.par_reduce, "__defaults__", (int(self.workers),))
         if self.mode == "real":
             def gtp(num_threads=None):
                 return _RealPool(self, orig(num_threads))
@@ -255,6 +275,33 @@ def partition_zero(n, tbs, threads):
     except ZeroDivisionError:
         return True
     return False
+
+
+def preflight(entry, n, tbs, threads):
+    """Before a kernel is allowed to write through the library's partition for
+    (n, tbs, threads) - and for its single-threaded form (n, tbs, 1), which is
+    what the direct, pool-less call uses: the blocks must lie inside [0, n) and
+    tile it.  A broken partition is reported here as a violation instead of
+    letting nogil numba code write out of bounds inside the checking process
+    (known-finding reproducers are replayed in the parent process)."""
+    core = C()
+    for th in sorted({int(threads), 1}):
+        try:
+            nb, base, rem = core.threading_choose_num_blocks(int(n), int(tbs), th)
+        except ZeroDivisionError:
+            continue  # no block at all: nothing is written; surfaces as a worker exception
+        prev = 0
+        ok = int(nb) == nb and nb >= 1
+        if ok:
+            for b in range(int(nb)):
+                s, e = core.threading_get_block_range(b, base, rem)
+                if s != prev or e < s:
+                    ok = False
+                    break
+                prev = e
+        if not ok or prev != n:
+            raise Violation("partition-not-tiling", entry=entry, rows=int(n), tbs=int(tbs), threads=th,
+                            zero_blocks=False, preflight=True)
 
 
 def raise_worker_errors(sched, entry, N=None, tbs=None, threads=None, **info):
@@ -409,6 +456,7 @@ def run_ownership(case):
             Y = np.ones(shape)
             # schedule: a deterministic function of the cell
             oseed = (n * 131 + abs(tb) * 17 + threads) % 5
+            preflight("subtract_update_", n, tb, threads)
             with Sched("perm", oseed) as sc:
                 core.subtract_update_(X, -1.0, Y, num_threads=threads, target_block_size=tb)
             raise_worker_errors(sc, "subtract_update_", N=n, tbs=tb, threads=threads, ndim=ndim)
@@ -525,9 +573,7 @@ def k_subtract_update(case, rng):
 
     def call(kw):
         X = X0.copy()
-        r = C().subtract_update_(X, c, Y, **kw)
-        if r is not None:
-            raise Violation("inplace-return", entry="subtract_update_")
+        C().subtract_update_(X, c, Y, **kw)
         return X
 
     return K("subtract_update_", n, n, call, lambda: (X0.astype(_common(dt, "float64")) - c * Y.astype(_common(dt, "float64"))),
@@ -543,9 +589,7 @@ def k_divide_update(case, rng):
 
     def call(kw):
         out = np.full(shape, np.nan, dtype=dt)  # pre-poisoned output buffer
-        r = C().divide_update_(X, c, out, **kw)
-        if r is not None:
-            raise Violation("inplace-return", entry="divide_update_")
+        C().divide_update_(X, c, out, **kw)
         return out
 
     return K("divide_update_", n, n, call, lambda: X.astype(_common(dt, "float64")) / c, [X], 0,
@@ -585,10 +629,7 @@ def k_csr_matvec(case, rng):
     data0, ip0, ix0 = A.data.copy(), A.indptr.copy(), A.indices.copy()
 
     def call(kw):
-        y = C().par_dot_csr_matvec(A, x, **kw)
-        if isinstance(x, C().qarray) != isinstance(y, C().qarray):
-            raise Violation("result-type", entry="par_dot_csr_matvec", got=type(y).__name__)
-        return np.asarray(y)
+        return C().par_dot_csr_matvec(A, x, **kw)
 
     def ref():
         if not (np.array_equal(A.data, data0) and np.array_equal(A.indptr, ip0) and np.array_equal(A.indices, ix0)):
@@ -609,7 +650,7 @@ def k_ldmul(case, rng):
     d = _arr(rng, (n, 1) if case["variant"] % 2 else (n,), dtd)
     M = _arr(rng, (n, m), dtm)
     odt = _common(dtd, dtm)
-    return K("l_diag_dot_dense", n, n, lambda kw: np.asarray(C().l_diag_dot_dense(d, M, **kw)),
+    return K("l_diag_dot_dense", n, n, lambda kw: C().l_diag_dot_dense(d, M, **kw),
              lambda: d.reshape(n, 1).astype(np.complex128) * M, [d, M], n * m * odt.itemsize,
              EXACT32 if _single(dtd, dtm) else EXACT64, mag=float(np.linalg.norm(M)) * 1.5 * math.sqrt(2))
 
@@ -621,7 +662,7 @@ def k_rdmul(case, rng):
     M = _arr(rng, (n, m), dtm)
     odt = _common(dtd, dtm)
     # the kernel partitions the n rows, the dispatcher compares the m columns with the target
-    return K("r_diag_dot_dense", n, m, lambda kw: np.asarray(C().r_diag_dot_dense(M, d, **kw)),
+    return K("r_diag_dot_dense", n, m, lambda kw: C().r_diag_dot_dense(M, d, **kw),
              lambda: M * d.reshape(1, m).astype(np.complex128), [d, M], n * m * odt.itemsize,
              EXACT32 if _single(dtd, dtm) else EXACT64, mag=float(np.linalg.norm(M)) * 1.5 * math.sqrt(2))
 
@@ -632,7 +673,7 @@ def k_outer(case, rng):
     a = _arr(rng, (n, 1) if case["variant"] % 2 else (n,), dta)
     b = _arr(rng, (1, m) if case["variant"] % 3 == 1 else (m,), dtb)
     odt = _common(dta, dtb)
-    return K("outer", n, n, lambda kw: np.asarray(C().outer(a, b, **kw)),
+    return K("outer", n, n, lambda kw: C().outer(a, b, **kw),
              lambda: np.multiply.outer(a.reshape(n).astype(np.complex128), b.reshape(m)), [a, b], n * m * odt.itemsize,
              EXACT32 if _single(dta, dtb) else EXACT64, mag=float(np.linalg.norm(a)) * float(np.linalg.norm(b)))
 
@@ -650,7 +691,7 @@ def k_kron(case, rng):
     dta, dtb = ALL4[case["dt"] % 4], ALL4[case["dt2"] % 4]
     a, b = _arr(rng, (m, na), dta), _arr(rng, (p, q), dtb)
     odt = _common(dta, dtb)
-    return K("kron_dense", n, n, lambda kw: np.asarray(C().kron_dense(a, b, **kw)),
+    return K("kron_dense", n, n, lambda kw: C().kron_dense(a, b, **kw),
              lambda: np.kron(a.astype(np.complex128), b), [a, b], n * na * q * odt.itemsize,
              EXACT32 if _single(dta, dtb) else EXACT64, mag=float(np.linalg.norm(a)) * float(np.linalg.norm(b)))
 
@@ -724,7 +765,8 @@ def s_kernel(name):
         dt, dt2 = draw(st.sampled_from(DT_PAIRS))
         return {"kernel": name, "regime": regime, "n": n, "m": m, "threads": threads, "tbs": tbs, "dt": dt, "dt2": dt2,
                 "variant": draw(st.integers(0, 839)), "seed": draw(st.integers(0, 2**31 - 1)),
-                "mode": draw(st.sampled_from(["perm", "perm", "conc", "real"])), "oseed": draw(st.integers(0, 10**6))}
+                "mode": draw(st.sampled_from(["perm", "perm", "conc", "real"])),
+                "oseed": draw(st.one_of(st.sampled_from([0, 1]), st.integers(2, 10**6)))}
 
     return strat
 
@@ -743,6 +785,7 @@ def run_kernel(case):
     eff_threads = 1 if threads is None else threads  # the worker environment pins the default to 1
     eff_tbs = thr if tbs is None else tbs
     saved = [np.array(x, copy=True) for x in k.inputs]
+    preflight(k.entry, k.rows, eff_tbs, eff_threads)
     poison_heap(k.res_nbytes)
     with Sched(case["mode"], case["oseed"]) as sc:
         got = k.call(kw)
@@ -752,6 +795,8 @@ def run_kernel(case):
     for x, s in zip(k.inputs, saved):
         if nbad(np.asarray(x), s) != 0:
             raise Violation("input-modified", entry=k.entry)
+    if type(got) is not type(serial):
+        raise Violation("result-type", entry=k.entry, got=type(got).__name__, want=type(serial).__name__, threaded=sc.threaded)
     got, serial = np.asarray(got), np.asarray(serial)
     if got.shape != serial.shape or got.dtype != serial.dtype:
         raise Violation("result-shape", entry=k.entry, got=[list(got.shape), str(got.dtype)],
@@ -844,6 +889,8 @@ def run_par_reduce(case):
         ref = functools.reduce(np.kron, seq)
         exact = case["kind"] == "int"
         fn = functools.partial(core.kron_dispatch, stype=None)
+        for r in sorted({1, 2, 3, int(ref.shape[0])}):
+            preflight("kron_dense", r, 128, 1)
         if op == "kron_api_sparse":
             seq = [sp.csr_matrix(x) if i % 2 == 0 else x for i, x in enumerate(seq)]
     with Sched(case["mode"], case["oseed"], workers=t if api else None) as sc:
@@ -935,9 +982,13 @@ def run_nested(case):
         ops.append(_arr(rng, (1, 2), "float64"))
     if len(ops) < 2:
         raise Reject("needs two operands")
+    for r in sorted({case["rows"], case["rows"] ** max(case["npairs"], 1), 1}):
+        preflight("kron_dense", r, 128, t)
     orig = core.get_thread_pool
     box = {}
-    sc = Sched("real", 0, workers=t)
+    # the schedule is owned: every first-level reduction task is submitted before the first one starts
+    first_level = (len(ops) + 1) // 2 if len(ops) > 2 else 0
+    sc = Sched("real", 0, workers=t, gate_after=first_level)
     dead = False
     try:
         with sc:
@@ -1166,7 +1217,9 @@ def run_builder_matvec(case):
     d0, r0, c0, D = sob.build_coo_data()
     A = sp.coo_matrix((d0, (r0, c0)), shape=(D, D)).toarray()
     rng = np.random.default_rng(case["seed"])
-    cplx = sob.iscomplex or case["xcomplex"]  # documented domain: a complex operator needs a complex vector
+    # domain: a complex operator needs a complex vector; the LinearOperator is built with the operator's own dtype
+    # and is only applied to vectors of that dtype
+    cplx = sob.iscomplex or (case["xcomplex"] and case["route"] == "matvec")
     xdt = np.dtype("complex128" if cplx else "float64")
     x = _arr(rng, (D,), xdt)
     x0 = x.copy()
@@ -1186,9 +1239,9 @@ def run_builder_matvec(case):
         else:
             got = sob.aslinearoperator(parallel=p) @ x
     raise_worker_errors(sc, "matvec", route=route)
-    if route == "matvec" and bp is not None and got is not bp:
-        raise Violation("out-not-returned", parallel=p)
     got = np.asarray(got)
+    if route == "matvec" and bp is not None and (bp.shape != got.shape or nbad(bp, got)):
+        raise Violation("out-not-filled", parallel=p, out=outk)  # documented: "an array to store the result in"
     if got.shape != ref.shape:
         raise Violation("result-shape", entry="matvec", got=list(got.shape), want=list(ref.shape))
     err = rel_err(got, ref, floor=floor)
@@ -1236,6 +1289,7 @@ def run_randn(case):
     arg = shape[0] if case["int_shape"] else shape
     kw = dict(dtype=case["dtype"], scale=case["scale"], loc=case["loc"], num_threads=t, seed=seed, dist=dist)
     sub = np.dtype("float32" if dt.name in ("float32", "complex64") else "float64")
+    preflight("complex_array", d, 2**15, 1)
     poison_heap(d * sub.itemsize)
     with Sched(case["mode"], case["oseed"]) as sc:
         got = qu.randn(arg, **kw)
@@ -1313,11 +1367,19 @@ def run_csr_dispatch(case):
     if case["xshape"] == "qarray":
         x = core.qarray(x)
     serial = A @ x  # one default worker: scipy's own routine
+    preflight("csr@vec", nc, -1024, case["workers"])
     poison_heap(nc * vals.dtype.itemsize)
-    with Sched(case["mode"], case["oseed"], workers=case["workers"]) as sc:
-        got = A @ x
-    raise_worker_errors(sc, "csr@vec", N=nc, tbs=-1024, threads=case["workers"])
     rect = nr != nc
+    with Sched(case["mode"], case["oseed"], workers=case["workers"]) as sc:
+        try:
+            got = A @ x
+        except ValueError as e:
+            # scipy itself notices a wrongly sized product when it reshapes the result of a column vector
+            if sc.threaded and "reshape" in str(e):
+                raise Violation("result-shape", entry="csr@vec", rect=rect, threaded=True, raised=str(e)[:80],
+                                want=list(np.shape(serial)))
+            raise
+    raise_worker_errors(sc, "csr@vec", N=nc, tbs=-1024, threads=case["workers"])
     if np.shape(got) != np.shape(serial):
         raise Violation("result-shape", entry="csr@vec", got=list(np.shape(got)), want=list(np.shape(serial)), rect=rect,
                         threaded=sc.threaded)
@@ -1348,39 +1410,39 @@ SUBCHECKS = [
                   "(thorough 0..128 x +-16 x 33) under the permuting executor: X must be exactly 1 everywhere (each "
                   "element processed exactly once) and no task may raise; nt cell: tasks submitted, threads>=2 and "
                   "(size<2*threads or ragged)"),
-    _kernel_sub("complex_array", (160, 3000), "complex_array vs x+iy, bit-for-bit; nt as RULE"),
-    _kernel_sub("phase_to_complex", (140, 3000), "phase_to_complex (1-D/2-D phases) bit-for-bit vs its serial form and EXACT vs cos+i sin; nt as RULE"),
-    _kernel_sub("subtract_update", (160, 3000), "subtract_update_ 1-D/2-D, real/complex scalar, in place; bit-for-bit vs serial form, EXACT vs numpy; nt as RULE"),
-    _kernel_sub("divide_update", (160, 3000), "divide_update_ into a NaN-poisoned out buffer; bit-for-bit vs serial form; nt as RULE"),
-    _kernel_sub("csr_matvec", (160, 3000), "par_dot_csr_matvec on square csr (empty rows, diagonal, dense), vector/column/qarray; bit-for-bit vs serial form, EXACT vs dense product; nt as RULE"),
-    _kernel_sub("ldmul", (140, 3000), "l_diag_dot_dense rectangular; nt as RULE"),
-    _kernel_sub("rdmul", (140, 3000), "r_diag_dot_dense rectangular (dispatcher compares columns, kernel splits rows); nt as RULE"),
-    _kernel_sub("outer", (140, 3000), "outer(a, b) with ket/bra shaped inputs; nt as RULE"),
-    _kernel_sub("kron_dense", (160, 3000), "kron_dense of (m x n) and (p x q) over every factorisation of the row count; nt as RULE"),
-    SubCheck("par_reduce", run_par_reduce, s_par_reduce, examples=(250, 4000), shards=(1, 4),
+    _kernel_sub("complex_array", (400, 3000), "complex_array vs x+iy, bit-for-bit; nt as RULE"),
+    _kernel_sub("phase_to_complex", (350, 3000), "phase_to_complex (1-D/2-D phases) bit-for-bit vs its serial form and EXACT vs cos+i sin; nt as RULE"),
+    _kernel_sub("subtract_update", (400, 3000), "subtract_update_ 1-D/2-D, real/complex scalar, in place; bit-for-bit vs serial form, EXACT vs numpy; nt as RULE"),
+    _kernel_sub("divide_update", (400, 3000), "divide_update_ into a NaN-poisoned out buffer; bit-for-bit vs serial form; nt as RULE"),
+    _kernel_sub("csr_matvec", (350, 3000), "par_dot_csr_matvec on square csr (empty rows, diagonal, dense), vector/column/qarray; bit-for-bit vs serial form, EXACT vs dense product; nt as RULE"),
+    _kernel_sub("ldmul", (350, 3000), "l_diag_dot_dense rectangular; nt as RULE"),
+    _kernel_sub("rdmul", (350, 3000), "r_diag_dot_dense rectangular (dispatcher compares columns, kernel splits rows); nt as RULE"),
+    _kernel_sub("outer", (350, 3000), "outer(a, b) with ket/bra shaped inputs; nt as RULE"),
+    _kernel_sub("kron_dense", (400, 3000), "kron_dense of (m x n) and (p x q) over every factorisation of the row count; nt as RULE"),
+    SubCheck("par_reduce", run_par_reduce, s_par_reduce, examples=(400, 4000), shards=(1, 4),
              rule="par_reduce(fn, seq, num_threads) with tuple concatenation (order), integer matmul, kron_dispatch, and "
                   "kron(*ops, parallel=True) under an emulated worker count, 1-9 operands (product <= 128 rows: no nested "
                   "kernel threading) vs functools.reduce / np.kron; nt: tasks submitted (>= 3 operands) and threads >= 2"),
-    SubCheck("par_reduce_nested", run_nested, s_nested, examples=(36, 400), shards=(1, 4),
+    SubCheck("par_reduce_nested", run_nested, s_nested, examples=(40, 400), shards=(1, 4),
              rule="kron(*ops, parallel=True) / par_reduce on quimb's genuine cached pool with k default workers where the "
                   "pairwise products themselves start threaded kernels (> 128 rows): must return (watchdog: pool queue "
                   "non-empty and static with the caller blocked = dead-lock) and equal np.kron; nt: >= 1 nested product"),
-    SubCheck("builder_coo", run_builder_coo, lambda tier: s_builder(tier, "coo"), examples=(120, 2500), shards=(1, 4),
+    SubCheck("builder_coo", run_builder_coo, lambda tier: s_builder(tier, "coo"), examples=(200, 2500), shards=(1, 4),
              rule="SparseOperatorBuilder.build_coo_data / build_sparse_matrix / build_dense with parallel in {2,3,5,16,33,True} "
                   "on generated term lists (no symmetry, Z2, U1 sectors, 1-6 sites): the multiset of (row, col, value) "
                   "triples equals the serial build exactly; nt: tasks submitted, world >= 2 and (D < 2*world or ragged)"),
-    SubCheck("builder_stripes", run_builder_stripes, lambda tier: s_builder(tier, "stripes"), examples=(120, 2500), shards=(1, 4),
+    SubCheck("builder_stripes", run_builder_stripes, lambda tier: s_builder(tier, "stripes"), examples=(200, 2500), shards=(1, 4),
              rule="configcore.build_coo_numba_core / matvec_numba with explicit (world_rank, world_size), world 1..65 incl. "
                   "> D: union of stripes == serial, stripe r holds only configurations = r mod world, striped matvecs sum "
                   "to the serial one; nt: world >= 2 and (D < 2*world or ragged)"),
-    SubCheck("builder_matvec", run_builder_matvec, lambda tier: s_builder(tier, "matvec"), examples=(120, 2500), shards=(1, 4),
+    SubCheck("builder_matvec", run_builder_matvec, lambda tier: s_builder(tier, "matvec"), examples=(200, 2500), shards=(1, 4),
              rule="SparseOperatorBuilder.matvec / aslinearoperator with parallel in {2,3,5,16,33,True}, out in {None, zeros, "
                   "pre-filled}: equals dense(serial build) @ x and the same call with parallel=False; nt as builder_coo"),
-    SubCheck("randn", run_randn, s_randn, examples=(200, 3000), shards=(1, 4),
+    SubCheck("randn", run_randn, s_randn, examples=(300, 3000), shards=(1, 4),
              rule="randn(shape, dtype, num_threads, seed, dist, scale, loc), d = 0..40 (and around 32768), threads 1..33: "
                   "identical under every schedule, all elements written, slice i == stream of spawned generator i; nt: "
                   "tasks submitted, threads >= 2 and (d < 2*threads or ragged)"),
-    SubCheck("csr_dispatch", run_csr_dispatch, s_csr_dispatch, examples=(30, 500), shards=(1, 4),
+    SubCheck("csr_dispatch", run_csr_dispatch, s_csr_dispatch, examples=(40, 500), shards=(1, 4),
              rule="scipy csr A @ x through quimb's _matmul_vector wrapper with an emulated default worker count 2..8, "
                   "nnz on both sides of 50000, square and tall (rows > cols) matrices, vector/column/qarray: same shape, "
                   "type and value as with one worker; nt: tasks submitted"),
